@@ -91,6 +91,18 @@ PROPS["C18"] = {
     "rule": "cases = read buffer of 4/8/16/64 bytes; 2-9 operations from: onReadReady with 1-6 scripted kernel reads (EAGAIN or up to 3x the buffer size) and consumer pacing (0, 1, 2, 5, cap, everything); write of 1-40 bytes and writev of 1-5 (sometimes 250-270) slices under scripted partial writes / EAGAIN / a kernel that stops; plus a concurrent writer stress (4 goroutines x 30 fast-path/slow-path sends) per case; non-trivial = buffer expanded, partial consumption, partial write, EAGAIN on write, stalled write, 256-iovec batch crossed; distinct by hash of op lines",
     "assumptions": ["kernel results are inputs (scripted)", "reliable FIFO socket", "EPOLLOUT delivered after EAGAIN"],
 }
+PROPS["C07"] = {
+    "claim": "placeholder",
+    "note": "Trusted: Lean kernel; extractor; harness (two bare in-package sessions, stub control connections, real send loops). Operations are atomic at this level: the sub-operation interleavings of the free list, the queue and the wake-up hand-off are C01/C02, C04, C05.",
+    "technique": "Lean 4 proof + skeleton tie + lock-step correspondence of the two-session protocol model + per-stream byte-order / end-of-stream / leak monitors",
+    "design_ref": "DESIGN.md §5 C07",
+    "lean_modules": ["ShmVerif.Tie.C07", "ShmVerif.Props.C07"],
+    "harness": True, "level": "proof", "trusted_base": COMMON_TB,
+    "rule": "cases = (slice configuration, queue capacity 1/2/4/8, 1-3 client streams, 6-45 operations: writes of sizes relative to the slice capacities, Flush from either end, Close from either end, explicit delivery of the next control-connection event to either end, reads (ReadBytes/Peek/Discard/Read), ReleasePreviousRead, environment take/give); non-trivial = fall-back transport, queue full, end-of-stream seen, flush on closed stream, read on closed stream, several streams; distinct by hash of op lines",
+    "assumptions": ["operation-level atomicity", "events on one control connection are handled in the order written"],
+}
+PROPS["C09"] = dict(PROPS["C07"], lean_modules=["ShmVerif.Tie.C07", "ShmVerif.Props.C09"], design_ref="DESIGN.md §5 C09")
+PROPS["C10"] = dict(PROPS["C07"], lean_modules=["ShmVerif.Tie.C07", "ShmVerif.Props.C10"], design_ref="DESIGN.md §5 C10")
 PROPS["C02"] = dict(PROPS["C01"], lean_modules=["ShmVerif.Tie.C01", "ShmVerif.Props.C02"],
     claim="PARTIAL proof. Proved in Lean: c02_conservation_seq and c02_quiescent_full_seq (every sequential-atomic history: free count = chain length, free count + owned = capacity; when nothing is owned size = cap and the walk from head visits every slot exactly once and ends at tail), c02_failed_alloc_consumes_nothing (a failing pop restores every shared word), c02_aba_witness (kernel-checked: after the ABA schedule and full recycling size = cap = 4 but the walk visits 2 slots - known finding F1, replayed on the real code every run). Conservation for ABA-free concurrent interleavings is not proved; covered by scheduler correspondence + quiescence monitors (size, chain walk, count never exceeds capacity).",
     design_ref="DESIGN.md §5 C02")
